@@ -10,7 +10,7 @@ F_CANCELH, F_ACTIVE, F_REGH, F_FINAL = 1, 2, 8, 32
 
 
 class Grammar(qc.QGrammar):
-    thread_kinds = [("event", 8), ("cancel", 2), ("activate", 2), ("sleep", 2), ("work", 2), ("release", 3)]
+    thread_kinds = [("event", 8), ("cancel", 2), ("activate", 2), ("sleep", 2), ("work", 2), ("release", 3), ("settimer", 2)]
 
     def compile(self, recipe, kind="F1", cpu=0, tier="quick"):
         h, threads = recipe[0], recipe[1]
@@ -74,6 +74,12 @@ class Grammar(qc.QGrammar):
             return P.op(ctx, "cancel", a=s, src=s, thread=ctx)
         if kind == "activate":
             return P.op(ctx, "activate", a=s, src=s, thread=ctx)
+        if kind == "settimer":
+            # new settings for a timer, possibly on another clock (uptime / wall / monotonic): the source moves between the per-clock timer heaps
+            if S["type"] != sc.T_TIMER:
+                return None
+            P.features.add("timer-reset" + ("-other-clock" if c % 4 else ""))
+            return P.op(ctx, "settimer", a=s, b=[20000, 100000, 400000][b % 3], c=[100000, 250000, 0][(b >> 2) % 3], d=0, e=c % 4, src=s, thread=ctx)
         if kind == "release":
             P.released.add(s)
             P.features.add("early-last-release")
